@@ -10,6 +10,7 @@ RULE = ("unit generators gen_C17 plus the C12, C13, C14, C15 workloads (ops that
         "the force-32bits builds and compared byte for byte with each other and with the Spec; non-trivial = any; distinct = distinct case lines")
 TRUSTED = ["hand-written Lean models tied to the code by the correspondence run",
            "fe32 mul/square and scalar32 reduction are covered by the correspondence, not by a refinement proof (see DESIGN C17)"]
+PROOF_SCOPE = 'partial by nature: field and scalar layers of both backends are proved equivalent (incl. ref10 sc_reduce/sc_muladd); the group/protocol layers on the 32-bit backend are compared by running both builds; which backend a target selects is a build matter'
 ASSUMPTIONS = []
 nontrivial = _auto.default_nontrivial
 # ops that only exist for the 64-bit backend (hooks on 56-bit-limb internals) are skipped for force32
